@@ -4,7 +4,8 @@ Only the property text and a scratch worktree path are handed over (nothing from
 import json, sys
 pid = sys.argv[1]
 wt = sys.argv[2]
-round2 = len(sys.argv) > 3 and sys.argv[3] in ('2', '3', '4', '5', '6')
+round2 = len(sys.argv) > 3 and sys.argv[3] in ('2', '3', '4', '5', '6', '7')
+round7 = len(sys.argv) > 3 and sys.argv[3] == '7'
 round6 = len(sys.argv) > 3 and sys.argv[3] == '6'
 round5 = len(sys.argv) > 3 and sys.argv[3] == '5'
 round4 = len(sys.argv) > 3 and sys.argv[3] == '4'
@@ -71,5 +72,11 @@ if round6:
     }[flavour]
     text = text.replace('What I need from you: TWO different changes', extra + '\n\nWhat I need from you: TWO different changes')
     text = text.replace('_out2/', '_out6/').replace('m3', 'm11').replace('m4', 'm12')
+    text += '\nKeep your progress messages short; do not paste whole files into your replies.'
+if round7:
+    extra = ('For this task you choose the mechanism yourself. Assume the change will be hunted by a thorough test generator that already covers: every boundary of 8/16/32/64 bits and bytes, counts crossing 256 / 1024 / 4096 / 65536, objects of 2^16 .. 2^31 bits, 10^5 keys, offsets near MaxInt32 and MaxInt64, slices with spare capacity holding garbage, arguments that share memory, nil versus empty, results inspected after further calls, earlier unrelated use of the library in the same process, rereads after failed reads, writer faults at every byte, long call histories on one object, and concurrent readers under the race detector. '
+             'Find something it would STILL miss: think about which combination of conditions nobody enumerates (two thresholds at once, a rare value in one argument together with a rare state left by an earlier call, a property of the input that is not a size or an alignment, e.g. a specific bit pattern, a palindromic or periodic structure, equal adjacent elements, a value equal to an internal sentinel or to a table index). Say in notes.md why you believe a generator like that misses it.')
+    text = text.replace('What I need from you: TWO different changes', extra + '\n\nWhat I need from you: TWO different changes')
+    text = text.replace('_out2/', '_out7/').replace('m3', 'm13').replace('m4', 'm14')
     text += '\nKeep your progress messages short; do not paste whole files into your replies.'
 print(text)
